@@ -89,11 +89,17 @@ def build_dataset(nc, tree, data=False):
         for name, size in t["dims"]:
             g.createDimension(name, size)
         for v in t["vars"]:
-            var = g.createVariable(v["name"], v.get("dtype", "f8"), tuple(v["dims"]))
+            if v.get("dtype") == "str":
+                var = g.createVariable(v["name"], str, tuple(v["dims"]))
+            else:
+                var = g.createVariable(v["name"], v.get("dtype", "f8"), tuple(v["dims"]))
             for k, val in v.get("attrs", {}).items():
                 var.setncattr(k, val)
             if data and v.get("values") is not None:
-                var[...] = np.array(v["values"], dtype="f8").reshape(var.shape)
+                if v.get("dtype") == "str":
+                    var[...] = np.array(v["values"], dtype=object).reshape(var.shape)
+                else:
+                    var[...] = np.array(v["values"], dtype="f8").reshape(var.shape)
         for c in t["subs"]:
             rec(g.createGroup(c["name"]), c)
 
@@ -113,6 +119,55 @@ def group_at(nc, path):
     for p in path:
         g = g.groups[p]
     return g
+
+
+def alias_probe(label, get):
+    """Record the array `get()` returns, overwrite it in place, read again: a difference means the
+    caller was handed internal state.  Returns a description of the difference or None."""
+    try:
+        a = get()
+    except Exception:  # noqa
+        return None                                # no array to hand out (e.g. a geometry coordinate without data)
+    a = np.asanyarray(a)
+    keep = np.ma.array(a, copy=True)
+    try:
+        if a.dtype.kind in "US":
+            a[...] = "clobbered"
+        elif a.dtype.kind == "O":
+            a[...] = None
+        else:
+            a[...] = 0
+            a[...] = a - 7
+        if np.ma.isMA(a):
+            a.mask = ~np.ma.getmaskarray(a)
+    except (ValueError, TypeError):
+        return None                                # read-only: nothing can leak
+    try:
+        b = np.ma.array(get(), copy=True)
+    except Exception as e:  # noqa
+        return f"{label}: {type(e).__name__} on second read"
+    same = (b.shape == keep.shape and b.dtype == keep.dtype
+            and np.array_equal(np.ma.getmaskarray(b), np.ma.getmaskarray(keep))
+            and np.array_equal(b.filled(0) if b.dtype.kind not in "USO" else b.astype(str).filled(""),
+                               keep.filled(0) if keep.dtype.kind not in "USO" else keep.astype(str).filled("")))
+    return None if same else f"{label}: {keep.tolist()!r} became {b.tolist()!r}"
+
+
+def alias_field(f):
+    """alias_probe over the data of a field and of every construct (and bounds) with data."""
+    out = []
+    x = alias_probe("field data", lambda: f.data.array)
+    if x:
+        out.append(x)
+    for key, c in sorted(f.constructs.filter_by_data(todict=True).items()):
+        x = alias_probe(f"{c.construct_type} {c.nc_get_variable(None)}", lambda c=c: c.data.array)
+        if x:
+            out.append(x)
+        if hasattr(c, "has_bounds") and c.has_bounds() and c.bounds.has_data():
+            x = alias_probe(f"bounds of {c.nc_get_variable(None)}", lambda c=c: c.bounds.data.array)
+            if x:
+                out.append(x)
+    return out
 
 
 def run_refs(case):
@@ -191,6 +246,9 @@ def run_coord(case, scratch):
     dcs = f.dimension_coordinates(filter_by_axis=(axes[0],), axis_mode="exact", todict=True) if axes else {}
     out["dimcoord"] = [dc.nc_get_variable(None) for dc in dcs.values()]
     out["dimcoord_values"] = [dc.data.array.tolist() for dc in dcs.values()]
+    out["alias"] = [x for x in [alias_probe("dimension coordinate", lambda dc=dc: dc.data.array) for dc in dcs.values()]
+                    + [alias_probe("field data", lambda: f.data.array)] if x]
+    out["dimcoord_values_again"] = [dc.data.array.tolist() for dc in dcs.values()]
     out["axis_ncdim"] = f.domain_axes(todict=True)[axes[0]].nc_get_dimension(None) if axes else None
     os.remove(fn)
     return out
@@ -219,6 +277,10 @@ def build_field(spec):
     for j, c in enumerate(spec["constructs"]):
         t = c["type"]
         data = cfdm.Data(arr(c, 100.0 * (j + 1)))
+        if c.get("strings"):
+            m = int(np.prod([spec["axes"][i]["size"] for i in c["axes"]]))
+            data = cfdm.Data(np.array(["st" + "a" * (i % 4) + str(i) for i in range(m)]).reshape(
+                [spec["axes"][i]["size"] for i in c["axes"]]))
         if t == "dim":
             x = cfdm.DimensionCoordinate(properties=dict(c["props"]), data=data)
         elif t == "aux":
@@ -377,6 +439,12 @@ def run_fields(case, scratch):
             r["equals_orig"] = eq(g, f0)
             r["orig_equals"] = eq(f0, g)
             r["names"] = names_of(g)
+            # overwrite every array the implementation hands out, then compare again
+            al = alias_field(g)
+            if al:
+                out[tag + "_alias"] = al
+            elif eq(g, f0) is not True and r["equals_orig"] is True:
+                out[tag + "_alias"] = ["the field no longer equals the original after its arrays were overwritten"]
             res[tag + "_field"] = g
         res[tag] = r
     out["unchanged"] = eq(f, f0) is True and names_of(f) == out["orig"]
